@@ -1121,3 +1121,24 @@ package apd
 //@   loop 1 decreases val(b)
 //@   ensures [closed] closed(ret0)
 //@   ensures [inv] inv(d)
+
+//@ func (*Context).Cbrt
+//@   props C03 C04 C05 C06 C08 C18
+//@   exported
+//@   requires writable(d) && inv(x)
+//@   assigns d
+//@   ensures [invkeep] old(inv(d)) ==> inv(d)
+//@   loop 1 invariant closed(ed.Flags) && ed.Ctx == nc && nc != nil && inv(z) && inv(ax) && old(inv(d)) == inv(d)
+//@   loop 2 invariant closed(ed.Flags) && ed.Ctx == nc && nc != nil && inv(z) && inv(ax) && old(inv(d)) == inv(d)
+//@   loop 3 invariant closed(ed.Flags) && ed.Ctx == nc && nc != nil && inv(z) && inv(ax) && inv(z0) && old(inv(d)) == inv(d)
+//@   loop 3 decreases -exp8
+//@   loop 4 invariant closed(ed.Flags) && ed.Ctx == nc && nc != nil && inv(z) && inv(ax) && inv(z0) && old(inv(d)) == inv(d)
+//@   loop 4 decreases exp8
+//@   loop 5 invariant closed(ed.Flags) && ed.Ctx == nc && nc != nil && inv(z) && inv(ax) && inv(z0) && old(inv(d)) == inv(d) && loop != nil && writable(loop) && loop.c == nc && loop.arg != nil && inv(loop.prevZ) && inv(loop.delta)
+//@   loop 5 decreases wrap64u(loop.maxIterations - loop.i - 1)
+//@   ensures [closed] closed(ret0)
+//@   ensures [trap] trapped(c, ret0) ==> ret1 != nil
+//@   ensures [edclean] ret1 == nil ==> edclean(ed)
+//@   ensures [nan] NaN1(x, d, ret0)
+//@   ensures [infneg] old(x.Form == Infinite && x.Negative) ==> (d.Form == NaN && ret0 == InvalidOperation)
+//@   ensures [inf] old(x.Form == Infinite && !x.Negative) ==> (d.Form == Infinite && !d.Negative && ret0 == 0)
